@@ -422,7 +422,7 @@ def check_go_fns(path, truth_fns, got_fns, ds):
         if got_p != exp_p:
             first_only = [(ns[0], go_type_value(ty)) for ns, ty in tf["params"]]
             ds.append(("c20-go-grouped-names" if got_p == first_only else "c20-go-parameters", "%s: %s parameters %s expected %s" % (path, tf["name"], got_p, exp_p)))
-        exp_c = list(tf["calls"])
+        exp_c = [tuple(x) for x in tf["calls"]]
         got_c = [(c["NodeName"], c["FunctionName"]) for c in g["FunctionCalls"] if c["FunctionName"] != ""]
         if got_c != exp_c:
             ds.append(("c20-go-calls", "%s: %s calls %s expected %s" % (path, tf["name"], got_c[:6], exp_c[:6])))
